@@ -30,7 +30,7 @@ namespace parmcb {
             BOOST_CONCEPT_ASSERT(( boost::VertexListGraphConcept<Graph> ));
             BOOST_CONCEPT_ASSERT(( boost::OutputIteratorConcept<OutputIterator, Edge> ));
 
-            std::queue<Vertex> queue;
+            static std::queue<Vertex> queue;            // R07g positive: shared by all calls
             std::unordered_set<Vertex> unreached;
             VertexIt ui, uiend;
             for (boost::tie(ui, uiend) = boost::vertices(g); ui != uiend; ++ui) {
